@@ -380,6 +380,7 @@ class Stubs:
         r = ex.new_list(n, out)
         ex.event('write', 'list', 'sorted()<%s>' % ex.last_snapshot_kind, r, z3.IntVal(0), n, ())
         ex.event('sorted_from', r, v)
+        ex.event('stub', 'sorted', (v,), {k: (x if isinstance(x, z3.ExprRef) else x) for k, x in kwargs.items()}, L.ListV(r))
         return L.ListV(r)
 
     def b_reversed(self, ex, args, kwargs):
@@ -453,6 +454,7 @@ class Stubs:
     def b_filter(self, ex, args, kwargs):
         f, v = args
         v = ex.to_val(v)
+        ex.event('stub', 'filter', (f, v), {}, None)
         it = L.OpaqueV(L.OK['iterator'], ex.fresh_int('filter'))
         d = IterDesc('unknown')
 
@@ -677,6 +679,7 @@ class Stubs:
     def x_functools_reduce(self, ex, args, kwargs):
         f = args[0]
         v = ex.to_val(args[1])
+        ex.event('stub', 'reduce', (f, v) + tuple(args[2:]), {}, None)
         n, arr = self.model.iter_snapshot(ex, v)
         if len(args) < 3:
             if not ex.branch(n > 0, 'reduce-nonempty'):
@@ -1136,7 +1139,9 @@ class Stubs:
         n, arr = self.model.iter_snapshot(ex, v)
         ex.may_raise(['TypeError'], 'join of non-strings')
         ex.event('join_of', v)
-        return ex.fresh_str('joined')
+        r = ex.fresh_str('joined')
+        ex.event('stub', 'str.join', (recv, v), {}, r)
+        return r
 
     def str_split(self, ex, recv, args, kwargs):
         sep = ex.to_val(args[0]) if args else L.NoneV
@@ -1154,16 +1159,20 @@ class Stubs:
         r = ex.new_list(n, arr)
         ex.event('write', 'list', 'split', r, z3.IntVal(0), n, ())
         ex.event('list_from_str', r, recv)
+        ex.event('stub', 'str.split', (recv, sep, mx), {}, L.ListV(r))
         return L.ListV(r)
 
     def str_replace(self, ex, recv, args, kwargs):
         old = self._need_str(ex, args[0], 'replace')
         new = self._need_str(ex, args[1], 'replace')
+        c = L.IntV(-1)
         if len(args) > 2:
             c = ex.to_val(args[2])
             if not ex.branch(self.model.index_like(c), 'replace-count-int'):
                 ex.raise_('TypeError', 'integer expected')
-        return ex.fresh_str('replaced')
+        r = L.StrV(L.UF('str_replace', I, I, I, Val, I)(Val.s(recv), Val.s(old), Val.s(new), c))
+        ex.event('stub', 'str.replace', (recv, old, new, c), {}, r)
+        return r
 
     def _str_pure(self, ex, recv, args, name):
         for a in args:
